@@ -45,12 +45,29 @@ def _create(ctx: Ctx) -> Func:
 
 
 def _dict_stores(ctx: Ctx, f: Func):
+    """{key: (node, value term, function)} for `d["key"] = v` stores and `{"key": v}` literals in ``f``
+    and in the private functions of its module that it calls (the builder may be split)."""
     out = {}
-    for n in nodes_in(f, ast.Assign):
-        for t in n.targets:
-            if isinstance(t, ast.Subscript) and isinstance(t.slice, ast.Constant) and isinstance(t.slice.value, str):
-                out[t.slice.value] = (n, ctx.X.at(f, n.value))
+    region = [f] + [g for g in ctx.cg.reachable([f], include_nested_values=False) if g is not f and g.module is f.module and g.cls is None and g.name.startswith("_")]
+    for g in region:
+        for n in nodes_in(g, ast.Assign):
+            for t in n.targets:
+                if isinstance(t, ast.Subscript) and isinstance(t.slice, ast.Constant) and isinstance(t.slice.value, str):
+                    out.setdefault(t.slice.value, (n, ctx.X.at(g, n.value), g))
+        for d_ in nodes_in(g, ast.Dict):
+            for k_, v_ in zip(d_.keys, d_.values):
+                if isinstance(k_, ast.Constant) and isinstance(k_.value, str):
+                    out.setdefault(k_.value, (v_, ctx.X.at(g, v_), g))
     return out
+
+
+def _anonp(t):
+    """A term with parameters identified by name only (the same value seen from a helper)."""
+    if not isinstance(t, tuple):
+        return t
+    if t and t[0] == "param" and len(t) == 3:
+        return ("param", "*", t[2])
+    return tuple(_anonp(x) for x in t)
 
 
 def _opaque(ctx):
@@ -68,16 +85,16 @@ def c13_1(ctx: Ctx) -> RuleResult:
     f = _create(ctx)
     X = ctx.X
     st = _dict_stores(ctx, f)
-    vp = ("param", f.qualname, "variables")
-    cp = ("param", f.qualname, "constraints")
+    vp = ("param", "*", "variables")
+    cp = ("param", "*", "constraints")
     for fam, (cfgattr, _t) in FAMILIES.items():
         for side in ("lower", "upper"):
             key = f"{fam}_{side}"
             if key not in st:
                 res.add(f, f.node, f"`{key}` is produced", False, "difference is never computed", construct=f"create: {key}")
                 continue
-            n, t = st[key]
-            nt = norm(t)
+            n, t, fw = st[key]
+            nt = _anonp(norm(t))
             m = match(nt, add(V("val"), neg(V("bnd"))))
             ok = m is not None
             why = "" if ok else f"`{key}` is `{show(t, 80)}`, not value - bound"
@@ -240,19 +257,19 @@ def c13_3(ctx: Ctx) -> RuleResult:
     st = _dict_stores(ctx, f)
     if "bound_lower" not in st:
         raise AnalysisError("bound differences are not produced at all")
-    n = st["bound_lower"][0]
-    guards = []
-    cur = parent(n)
-    while cur is not None and cur is not f.node:
-        if isinstance(cur, ast.If):
-            guards.append(cur)
-        cur = parent(cur)
-    if not guards:
-        res.add(f, n, "bound differences are produced unconditionally", True, construct="create: bound diff guard")
+    n, _t, fw = st["bound_lower"]
+    from ..util import path_condition
+
+    st_ = n
+    while parent(st_) is not None and not isinstance(st_, ast.stmt):
+        st_ = parent(st_)
+    parts = [(c_, p_) for c_, p_ in path_condition(ctx, fw, st_)
+             if contains(c_, lambda s_: s_[0] == "call" and s_[1][0] == "global" and s_[1][1] in ("numpy.isfinite", "numpy.isinf", "numpy.isneginf", "numpy.isposinf"))]
+    if not parts:
+        res.add(fw, n, "bound differences are produced unconditionally", True, construct="create: bound diff guard")
         res.exhaustive = True
         return res
-    g = guards[0]
-    t = X.value_at(f, g.test)
+    t = ("bool", "and", tuple(c_ if p_ else ("unary", "not", c_) for c_, p_ in parts))
     bad = []
     undecided = False
     for lo, up in itertools.product(("all", "mixed", "none"), repeat=2):
@@ -265,9 +282,9 @@ def c13_3(ctx: Ctx) -> RuleResult:
         if want and not v:
             bad.append((lo, up))
     if undecided:
-        raise AnalysisError(f"cannot evaluate the bound-difference guard `{ast.unparse(g.test)[:80]}` over finiteness kinds")
+        raise AnalysisError(f"cannot evaluate the bound-difference guard `{show(t, 80)}` over finiteness kinds")
     ok = not bad
-    res.add(f, g, "guard is true for every (lower, upper) finiteness kind with at least one finite bound (9 kinds)", ok,
+    res.add(fw, n, "guard is true for every (lower, upper) finiteness kind with at least one finite bound (9 kinds)", ok,
             "" if ok else f"no bound information is produced when (lower, upper) bounds are {bad}: a value outside a finite bound reports no violation",
             construct="create: bound diff guard")
     # sibling agreement: the optimizer plug-in uses "any finite" for the same decision
